@@ -339,6 +339,16 @@ func c13ImplD(z0, z1 int64, ops []int64) []int64 {
 				if (a > 0 && int64(len(w)) >= a) || len(w) >= c13MaxWalk {
 					break
 				}
+				if len(w) == 1+(i/4)%3 && (i/4)%5 < 3 {
+					// the SAME sequence value walked again while this walk is under way (nested range, two iter.Pull
+					// cursors): runs of one Seq are independent, the outer walk must go on where it was
+					k := 0
+					for range seqD {
+						if k++; k >= 1+(i/4)%4 && (i/4)%2 == 1 || k >= c13MaxWalk {
+							break
+						}
+					}
+				}
 			}
 			if len(w) >= c13MaxWalk {
 				return []int64{HANG}
@@ -480,6 +490,16 @@ func c13ImplS(z0 int64, ops []int64) []int64 {
 				w = append(w, int64(v))
 				if (a > 0 && int64(len(w)) >= a) || len(w) >= c13MaxWalk {
 					break
+				}
+				if len(w) == 1+(i/4)%3 && (i/4)%5 < 3 {
+					// the SAME sequence value walked again while this walk is under way (nested range, two iter.Pull
+					// cursors): runs of one Seq are independent, the outer walk must go on where it was
+					k := 0
+					for range seqS {
+						if k++; k >= 1+(i/4)%4 && (i/4)%2 == 1 || k >= c13MaxWalk {
+							break
+						}
+					}
 				}
 			}
 			if len(w) >= c13MaxWalk {
@@ -911,6 +931,7 @@ func c13SSetup(n int) (*c13SAbs, [][4]int64) {
 }
 
 func c13Gen(c *Ctx) {
+	c13InitFamily(c)
 	// ---------------- DList: every defined operation x every handle choice on every small state
 	type job struct {
 		family string
@@ -1092,6 +1113,74 @@ func c13Gen(c *Ctx) {
 
 // c13Valid: the case stays inside the specification (known handles, Init only of an empty list, node insertion only
 // of detached nodes) — used to keep the shrinker from "minimising" a failure into a precondition violation
+// Init of a NON-empty DList is outside the sequence specification (the old nodes keep pointing at the list, exactly as in
+// container/list) but inside the pointer-level model: such cases are compared with the model (and container/list) only.
+func c13InitNonEmpty(in []int64) bool {
+	if len(in) < 3 || in[0] != 0 {
+		return false
+	}
+	n := [2]int{}
+	for i := 3; i+3 < len(in); i += 4 {
+		L := in[i+1]
+		if L < 0 || L > 1 {
+			return false
+		}
+		switch in[i] {
+		case 8, 9:
+			n[L]++
+		case 0:
+			if n[L] > 0 {
+				return true
+			}
+		case 1, 2, 3, 23, 24:
+		default:
+			return false // the family below uses pushes, Init and observers only
+		}
+	}
+	return false
+}
+
+func c13InitFamily(c *Ctx) {
+	var cases [][]int64
+	obs := func(in []int64, L int64) []int64 {
+		return append(in, 1, L, 0, 0, 2, L, 0, 0, 3, L, 0, 0, 23, L, 0, 0, 24, L, 0, 0)
+	}
+	for n0 := 1; n0 <= 4; n0++ {
+		for n1 := 0; n1 <= 2; n1++ {
+			for after := 0; after <= 3; after++ {
+				for mix := 0; mix < 4; mix++ {
+					for z := int64(0); z < 2; z++ {
+						in := []int64{0, z, z}
+						v := int64(10)
+						for j := 0; j < n0; j++ {
+							in = append(in, 8+int64((j+mix)%2), 0, v, 0)
+							v++
+						}
+						for j := 0; j < n1; j++ {
+							in = append(in, 9, 1, v, 0)
+							v++
+						}
+						in = append(in, 0, 0, 0, 0) // Init of the non-empty list 0
+						in = obs(in, 0)
+						for j := 0; j < after; j++ {
+							in = append(in, 8+int64((j+mix/2)%2), 0, v, 0)
+							v++
+						}
+						if mix%2 == 1 {
+							in = append(in, 0, 0, 0, 0)
+						}
+						in = obs(obs(in, 0), 1)
+						cases = append(cases, in)
+					}
+				}
+			}
+		}
+	}
+	c.Each(len(cases), func(i int, t *T) {
+		t.Try("dlist-init-of-a-non-empty-list (model and container/list only)", cases[i], true)
+	})
+}
+
 func c13Valid(in []int64) bool {
 	if len(in) < 3 || (len(in)-3)%4 != 0 {
 		return false
@@ -1214,7 +1303,7 @@ func c13Describe(in []int64) string {
 }
 
 func init() {
-	Register(&Prop{ID: "C13", Num: 13, SpecMode: "equal", Gen: c13Gen, Impl: c13Impl,
+	Register(&Prop{ID: "C13", Pure: true, SpecSkip: c13InitNonEmpty, Num: 13, SpecMode: "equal", Gen: c13Gen, Impl: c13Impl,
 		Shrink: c13Shrink, Describe: c13Describe,
 		Rule: "DList (implementation vs container/list vs model vs sequence specification): every defined operation with every handle choice (live, foreign, removed, never inserted; self-copies) on every state with list 0 <= 4 and list 1 <= 2 nodes, pairs of operations on the smaller states, all pairs on untouched zero-value / initialised lists, random sequences of 10-70 operations; each case ends with a full observation (Len, Front, Back, both traversals, All with early stops, Next/Prev/Value of every handle). SList: sizes 0..4 x every operation x every index in -1..n+1 and indices +-2^8, 2^16, 2^31, 2^32, 2^60 (+j) far outside the range (Swap all pairs) x every detached node, sequences up to the tier's depth; random sequences. distinct = distinct case; non-trivial = exhaustive cases with at least one mutating operation after the setup, random cases with at least 4 operation kinds"})
 }
